@@ -61,6 +61,7 @@ def check(c: Check):
     clause_e(c)
     clause_f(c)
     clause_g(c)
+    clause_h(c)
     from .common import sweep_records
     sweep_records(c, 'C20-rec', ['exactly_lib.help.contents_structure', 'exactly_lib.definitions.cross_ref', 'exactly_lib.common.help'], floor=8)
 
@@ -723,3 +724,64 @@ def clause_g(c: Check):
         c.expect(routes == {('Parser._parse_entity_help', e)}, 'C20-g', 'route/help-%s' % e,
                  '`help %s` is routed to %s (expected the entity help of %s)' % (e, sorted(routes), e), ap.loc())
     c.floor('C20-g', 'help requests routed', n, 20)
+
+
+# ---------------------------------------------------------------- h
+def clause_h(c: Check):
+    """every entity type is rendered exactly once in the HTML manual: the types rendered inside the test-case /
+    test-suite chapters are exactly the ones the general entity chapter excludes - decided with the folded tables
+    and the filter of _entity_sections (key attribute compared with the *kind of value* the exclusion list holds)"""
+    ix, fo = c.ix, c.fo
+    HM = 'exactly_lib.help.html_doc.main'
+    m = ix.module(HM)
+    gen = ix.func(HM + ':_generator')
+    cs = ix.func(HM + ':_case_and_suite_sections')
+    es = ix.func(HM + ':_entity_sections')
+    am = ix.module(DE + 'all_entity_types')
+    allv = am.defs.get('ALL_ENTITY_TYPES_IN_DISPLAY_ORDER')
+    recs = [fo.fold(am, None, e) for e in allv.value.elts]
+    c.require(all(isinstance(r, Record) for r in recs), 'C20-h: entity type records do not fold')
+    all_ids = [fo.record_attr(r, 'identifier') for r in recs]
+    # rendered inside the chapters
+    inside = []
+    for n in ast.walk(cs.node):
+        if isinstance(n, ast.Call) and isinstance(n.func, ast.Attribute) and n.func.attr == 'entity_type_conf_for' and n.args:
+            v = fo.fold(m, cs, n.args[0])
+            c.require(isinstance(v, str), 'C20-h: argument of entity_type_conf_for does not fold: %s' % unparse(n.args[0]))
+            inside.append(v)
+    # the exclusion list given to _entity_sections
+    excl = None
+    for n in ast.walk(gen.node):
+        if isinstance(n, ast.Call) and ix.callee(m, gen, n) == es:
+            b = {kw.arg: kw.value for kw in n.keywords}
+            names = [p.arg for p in es.positional_params()]
+            for i, a in enumerate(n.args):
+                b[names[i]] = a
+            lst = b.get(names[1])
+            if isinstance(lst, (ast.List, ast.Tuple)):
+                excl = [fo.fold(m, gen, e) for e in lst.elts]
+    c.require(excl is not None and not any(is_unknown(x) for x in excl), 'C20-h: the exclusion list of _entity_sections does not fold')
+    # the filter: which attribute of an entity type is looked up in the exclusion list
+    key_attr = None
+    for n in ast.walk(es.node):
+        if isinstance(n, ast.Compare) and len(n.ops) == 1 and isinstance(n.ops[0], (ast.NotIn, ast.In)) \
+                and isinstance(n.comparators[0], ast.Name) and n.comparators[0].id == es.positional_params()[1].arg:
+            if isinstance(n.left, ast.Attribute):
+                key_attr = n.left.attr
+            elif isinstance(n.left, ast.Name):
+                key_attr = ''
+    c.require(key_attr is not None, 'C20-h: the filter of _entity_sections is not a membership test in the exclusion list')
+    kept = []
+    for r, ident in zip(recs, all_ids):
+        key = fo.record_attr(r, key_attr) if key_attr else r
+        present = any((type(x) is type(key)) and x == key for x in excl)
+        if not present:
+            kept.append(ident)
+    twice = sorted(set(kept) & set(inside))
+    never = sorted(set(all_ids) - set(kept) - set(inside))
+    c.expect(not twice, 'C20-h', 'entity-chapters/rendered-once',
+             'entity types %s are rendered inside the test-case / test-suite chapters and again in the entity chapter '
+             '(the exclusion list holds %s, the filter looks up %s): their anchors exist twice' % (
+                 twice, sorted({type(x).__name__ for x in excl}), 'the ' + key_attr if key_attr else 'the object'), es.loc())
+    c.expect(not never, 'C20-h', 'entity-chapters/all-rendered', 'entity types %s are rendered nowhere in the manual' % never, es.loc())
+    c.floor('C20-h', 'entity types placed in the manual', len(all_ids), 8)
